@@ -96,9 +96,12 @@ class Reports(_Helpers, SysTarget):
             report.summary(state.get_setmap(cb), stream=out)
             rows, tot, _ = cli.parse_summary(out.getvalue())
             want = {k: (v, f"{100.0 * v / total:.2f}") for k, v in direct.items()}
-            if rows != want or tot != total:
-                return {"expected": self._fmt({k: v[0] for k, v in want.items()}) + f" total {total}",
-                        "observed": self._fmt({k: v[0] for k, v in rows.items()}) + f" total {tot}", "klass": "reports:summary"}
+            # percentages are rendered from floating point: equal up to one unit in the last printed digit (A2)
+            same = set(rows) == set(want) and all(rows[k][0] == want[k][0] and abs(float(rows[k][1]) - float(want[k][1])) <= 0.0101
+                                                   for k in want)
+            if not same or tot != total:
+                return {"expected": str(self._fmt(want)) + f" total {total}",
+                        "observed": str(self._fmt(rows)) + f" total {tot}", "klass": "reports:summary"}
         return None
 
 
